@@ -366,7 +366,14 @@ class Extractor:
                 if len(found) != 1:
                     raise Undecided("ambiguous item `%s` in %s: %d matches" % (sel, rel, len(found)))
                 it = found[0]
-                if it.kind == "fn":
+                if it.kind == "fn" and ent.get("wrap_mod"):
+                    # "wrap_mod": "Access_signature" -- emit a free fn inside `mod NAME { use super::*; .. }` so that
+                    # equally named fn items nested in different functions can coexist; qual = NAME::fn
+                    wm = ent["wrap_mod"]
+                    out = out + OText.synthetic("\npub mod %s {\nuse super::*;\n" % wm)
+                    out = out + self._emit_fn(txt, fi, rel, it, ent.get("qual", "%s::%s" % (wm, it.name)), strip_async, ent_rewrites, ent, indent="    ")
+                    out = out + OText.synthetic("}\n")
+                elif it.kind == "fn":
                     out = out + self._emit_fn(txt, fi, rel, it, ent.get("qual", it.name), strip_async, ent_rewrites, ent)
                 else:
                     ot = OText.from_src(txt, it.start, it.end, fi)
